@@ -102,10 +102,21 @@ def respond (www : Bytes) (e : AErr) : Resp :=
 
 /-! ### ChainAuthenticate -/
 
+/-- What one authenticator returns: `(ctx, nil)`, `(nil, err)`, or — the `return ctx, err` shape of a
+validate callback that parses claims before checking them — a non-nil context TOGETHER with an
+error. (`(nil, nil)` is outside the family.) -/
 inductive Outcome
-  | ok                      -- the authenticator returns an AuthContext
-  | err (e : AErr)
+  | ok                      -- (ctx, nil)
+  | err (e : AErr)          -- (nil, e)
+  | ctxErr (e : AErr)       -- (ctx, e): the error wins, the context is ignored
   deriving Repr
+
+/-- the `err` component: `ChainAuthenticate` and `authenticate` test `err == nil` / `err != nil`
+and never look at the context when an error is present -/
+def Outcome.errOf : Outcome → Option AErr
+  | .ok => none
+  | .err e => some e
+  | .ctxErr e => some e
 
 def isDirectValueError : AErr → Bool
   | .rpc ty _ => ty == tyValueError
@@ -127,13 +138,15 @@ def msgNoAuthenticator : Bytes :=
 authenticators were called from here on -/
 def chainFrom (i : Nat) : List Outcome → ChainResult × Nat
   | [] => (.exhausted, 0)
-  | .ok :: _ => (.okAt i, 1)
-  | .err e :: rest =>
-    if (firstUnavailable e).isSome then (.errAt i e, 1)
-    else if isDirectValueError e then
-      let r := chainFrom (i + 1) rest
-      (r.1, r.2 + 1)
-    else (.errAt i e, 1)
+  | o :: rest =>
+    match o.errOf with
+    | none => (.okAt i, 1)
+    | some e =>
+      if (firstUnavailable e).isSome then (.errAt i e, 1)
+      else if isDirectValueError e then
+        let r := chainFrom (i + 1) rest
+        (r.1, r.2 + 1)
+      else (.errAt i e, 1)
 
 def chain (os : List Outcome) : ChainResult × Nat := chainFrom 0 os
 
